@@ -3,7 +3,7 @@
    run_join = close_trace of it is what the runner executes against the crate), closed by `exact`, with their assumptions. *)
 From Coq Require Import List Arith Bool.
 Import ListNotations.
-Require Import ScanFull InstsFull ObligJoin C04Join C11Groups C05Join.
+Require Import ScanFull InstsFull ObligJoin C04Join C11Groups C05Join C04When.
 
 (* For every number of children, every child behaviour (scripts of arbitrary answers and wake-ups), every history of
    polls / wake-ups / drop, both waker strategies, slice (array, Vec) and tuple variants: as long as the join has not been
@@ -16,6 +16,23 @@ Theorem C04_join_positional selective tuple scs ops :
   results t = [] \/ exists o, results t = [o] /\ Okres false n o (polls_from 0 t).
 Proof. exact (C05_join selective false tuple scs ops). Qed.
 Print Assumptions C04_join_positional.
+
+
+(* "resolves only when every child has resolved - in the very poll in which the last of them resolves": between operations, once at least one
+   poll has been made, a join without a result still has a child that has not answered its value.  This holds after EVERY poll, so the poll in
+   which the last child answers cannot end without the result.  (tuple = true -> 0 < n: the arity-0 tuple is not an instance of the macro; the
+   hand-written impl for () is the slice algorithm at n = 0.) *)
+Theorem C04_resolves_with_last_child selective tuple scs ops :
+  let n := length scs in let w := join_world selective false tuple scs ops in
+  dropped _ w = false -> (tuple = true -> 0 < n) ->
+  let t := strip (tr _ w) in
+  t <> [] -> results t = [] -> errs (polls_from 0 t) = [] /\ exists i, i < n /\ okl i (polls_from 0 t) = [].
+Proof. exact (C04_when selective false tuple scs ops). Qed.
+Print Assumptions C04_resolves_with_last_child.
+
+(* joining zero futures resolves on the first poll to the empty container *)
+Example C04_empty : results (strip (tr _ (join_world true false false [] [OPollFresh]))) = [OVals []].
+Proof. vm_compute. reflexivity. Qed.
 
 (* The same fact read off the scripts: every result that appears in the trace is the positional vector of the values the
    children's scripts resolve to (earlier, script-based formulation; selective strategy). *)
